@@ -280,3 +280,49 @@ pub fn serialize(_a: &Value) -> Value {
     }
     json!({"scenario":"c15_serialize","observed":{"values":n},"violation":!why.is_empty(),"why":why.join(" | ")})
 }
+
+/// scalar members on the way in: a version string written with JSON escapes is still "2.0"; an error code outside i32 is refused, not wrapped
+pub fn parse(_a: &Value) -> Value {
+    use jsonrpsee_types::{Notification, Request};
+    let mut why = vec![];
+    let esc = r#""2\u002e0""#;
+    let t1 = format!(r#"{{"jsonrpc":{esc},"id":7,"result":99}}"#);
+    if let Err(e) = serde_json::from_str::<Response<u64>>(&t1) {
+        why.push(format!("a response whose version is written {esc} is refused: {e}"));
+    }
+    let t2 = format!(r#"{{"jsonrpc":{esc},"id":7,"method":"m"}}"#);
+    if let Err(e) = serde_json::from_str::<Request>(&t2) {
+        why.push(format!("a request whose version is written {esc} is refused: {e}"));
+    }
+    let t3 = format!(r#"{{"jsonrpc":{esc},"method":"m","params":null}}"#);
+    if let Err(e) = serde_json::from_str::<Notification<Option<Value>>>(&t3) {
+        why.push(format!("a notification whose version is written {esc} is refused: {e}"));
+    }
+    // also through an owning reader (no borrowed strings available)
+    if let Err(e) = serde_json::from_reader::<_, TwoPointZero>(r#""2.0""#.as_bytes()) {
+        why.push(format!("the version read from a stream is refused: {e}"));
+    }
+    for other in [r#""2.00""#, r#""1.0""#, r#""""#, "2.0", "2"] {
+        if serde_json::from_str::<Response<u64>>(&format!(r#"{{"jsonrpc":{other},"id":7,"result":99}}"#)).is_ok() {
+            why.push(format!("version {other} is accepted"));
+        }
+    }
+    for code in ["2147483648", "4294934596", "-2147483649", "9223372036854775807", "1.5"] {
+        let text = format!(r#"{{"code":{code},"message":"m"}}"#);
+        if let Ok(e) = serde_json::from_str::<ErrorObjectOwned>(&text) {
+            why.push(format!("error code {code} (outside i32) is accepted as {}", e.code()));
+        }
+    }
+    for code in [i32::MIN as i64, -32700, -32000, -1, 0, 1, i32::MAX as i64] {
+        let text = format!(r#"{{"code":{code},"message":"m"}}"#);
+        match serde_json::from_str::<ErrorObjectOwned>(&text) {
+            Ok(e) => {
+                if e.code() as i64 != code || serde_json::to_string(&e).unwrap_or_default() != text {
+                    why.push(format!("error code {code} comes back as {}", e.code()));
+                }
+            }
+            Err(er) => why.push(format!("error code {code} is refused: {er}")),
+        }
+    }
+    json!({"scenario":"c15_parse","observed":{},"violation":!why.is_empty(),"why":why.join(" | ")})
+}
